@@ -504,6 +504,9 @@ def _as_dictcomp(val: ast.expr) -> ast.expr:
             return _loc(ast.DictComp(key=a.elt.elts[0], value=a.elt.elts[1], generators=a.generators), val)
         if isinstance(a, ast.Call) and isinstance(a.func, ast.Name) and a.func.id == "zip" and len(a.args) == 2 and not a.keywords:
             ks, vs = a.args
+            if isinstance(ks, ast.Name) and isinstance(vs, ast.Name) and ks.id == vs.id:
+                gen = ast.comprehension(target=ast.Name(id="item__zip", ctx=ast.Store()), iter=ks, ifs=[], is_async=0)
+                return _loc(ast.DictComp(key=_loc(ast.Name(id="item__zip", ctx=ast.Load()), ks), value=_loc(ast.Name(id="item__zip", ctx=ast.Load()), ks), generators=[gen]), val)
             if isinstance(vs, (ast.ListComp, ast.GeneratorExp)) and len(vs.generators) == 1 and not vs.generators[0].ifs and isinstance(vs.generators[0].target, ast.Name) and ast.dump(vs.generators[0].iter) == ast.dump(ks) and isinstance(ks, ast.Name):
                 g = vs.generators[0]
                 return _loc(ast.DictComp(key=_loc(ast.Name(id=g.target.id, ctx=ast.Load()), ks), value=vs.elt, generators=[g]), val)
